@@ -48,7 +48,7 @@ Proof.
 Qed.
 
 (* the operations whose refusals are all-or-nothing: everything except a batch update that has
-   both departures and arrivals (recorded finding F19), and re-buy / join when the seat manager
+   both departures and arrivals (recorded finding F19), and re-buy / add-on / join when the seat manager
    does not know a player the table knows (impossible under the bookkeeping invariant) *)
 Definition atomic_op (t : tbl) (o : mop) : Prop :=
   match o with
@@ -56,7 +56,9 @@ Definition atomic_op (t : tbl) (o : mop) : Prop :=
                     | Some _ => exists s', update_chips (t_sm t) (jp_id j) true = (Ok, s')
                     | None => True end
   | MJoin id => match join_players (t_sm t) [id] with (Ok, _) => True | _ => find_idx t id = None end
-  | MRedeem _ _ => True
+  | MRedeem id _ => match find_idx t id with
+                    | Some _ => exists s', update_chips (t_sm t) id true = (Ok, s')
+                    | None => True end
   | MLeave _ => True
   | MUpdate joins _ leaves => joins = [] \/ leaves = []
   end.
@@ -73,7 +75,9 @@ Proof.
     destruct (tp_seat p =? -1); [inversion H; reflexivity|].
     destruct (tp_in p); [inversion H|].
     destruct (join_players (t_sm t) [id]) as [r s']. destruct r; [inversion H|discriminate A].
-  - destruct (find_idx t id); inversion H; reflexivity.
+  - destruct (find_idx t id) as [i|]; [|inversion H; reflexivity].
+    destruct A as [s' Es]. rewrite Es in H.
+    destruct (nth_error _ i) as [p|]; [|inversion H]. destruct (0 <? tp_bank p); inversion H.
   - apply (batch_remove_err _ _ _ H).
   - destruct A as [->| ->].
     + destruct leaves as [|l ls]; [inversion H|].
